@@ -292,9 +292,10 @@ func main() {
 	r := rand.New(rand.NewSource(*seed*49979687 + 15))
 	tr := &trace.Buf{}
 	var s *shared
-	if *phase == "conc" {
-		rb := rand.New(rand.NewSource(*seed*49979687 + 15))
-		_ = rb
+	if *phase == "conc" || *order != "forward" {
+		// the shared byte material is built once (forward oracle); every other process loads it, so that
+		// the calls under test are the FIRST library calls of the process (building the material would
+		// itself initialise whatever process-wide state the library keeps)
 		s = load(*material)
 		// keep r in step with the sequential phase: the op pool draws random messages after buildShared
 		r = rand.New(rand.NewSource(*seed*49979687 + 16))
